@@ -247,6 +247,14 @@ func parseStackPCs(crash string) ([]uintptr, error) {
 			break
 		}
 
+		// In a deep stack the runtime prints only the innermost and
+		// outermost frames, with a line of the form
+		// "...N frames elided..." (or "...additional frames elided...")
+		// between them. It takes the place of a symbol line; skip it.
+		if symLine && strings.HasPrefix(line, "...") && strings.HasSuffix(line, " frames elided...") {
+			continue
+		}
+
 		// Expect a pair of lines:
 		//   SYMBOL(ARGS)
 		//   \tFILE:LINE +0xRELPC sp=0x%x fp=0x%x pc=0x%x
